@@ -5,7 +5,7 @@ ENTRY = {'title': 'Payload decoding conforms to the ecoNET wire layout for every
  'technique': 'Lean 4 round-trip theorems decode(encode m ++ rest) = (valOf m, rest) for every structure and the whole sensor chain (wire layout '
               'written once as encoders = the specification) + correspondence: Lean-encoded messages decoded by the real frames, plus a malformed '
               'stream',
- 'prop_modules': ['C05Sensors', 'C05Params', 'C05Device', 'C05Short', 'C05Uid', 'C05ShortParams', 'TieUid', 'TieParams', 'TieSchedule'],
+ 'prop_modules': ['C05Sensors', 'C05Params', 'C05Device', 'C05Short', 'C05Uid', 'C05ShortParams', 'TieUid', 'TieParams', 'TieSchedule', 'TieStructParams'],
  'uses_tables': True,
  'level_text': 'Proof: for ALL well-formed abstract messages and ALL trailing bytes the decoder model run on the Lean-defined encoding returns '
                'exactly the encoded values and the remainder: the 16-section sensor chain (`rt_sensorData`, every presence combination; per-section '
@@ -28,7 +28,13 @@ ENTRY = {'title': 'Payload decoding conforms to the ecoNET wire layout for every
  'level_note': 'All structures have a round-trip theorem. Rests on correspondence: model <-> structures/*.py, purity, error classes of malformed '
                'payloads, formatted model name (printable ASCII only), UTF-8 validity = bytes.decode. Trusted: struct float conversion, inet_ntop '
                'text.',
- 'clauses': {'every sensor section reads its own bytes / width / sentinel / count': 'theorem',
+ 'clauses': {'code tie of the parameter blocks (round 8): the SOURCE TEXT of EcomaxParametersStructure / MixerParametersStructure / '
+             'ThermostatParametersStructure (.decode and their generators) and utils.ensure_dict, translated on every run, equals P2.decodeEcomax '
+             '/ decodeMixer / decodeThermo for every message, offset, instance and data argument': 'theorem (TieStructParams.ecomax_decode_eq, '
+                                                                                                   'mixer_decode_eq, thermo_decode_eq, '
+                                                                                                   'thermo_sizes_tbl) + translator validation '
+                                                                                                   '(harness/pycode.py group structparams)',
+             'every sensor section reads its own bytes / width / sentinel / count': 'theorem',
              'sensor chain for every presence combination': 'theorem (rt_sensorData)',
              'regulator data over all 17 type ids, bit arrays crossing byte boundaries': 'theorem (rt_scalar, rt_bitRun, rt_regdata, '
                                                                                          'rt_regdata_via_schema)',
